@@ -151,6 +151,7 @@ ChooseNode ==
                  cancelled, status, travfault>>
 
 AtMostOne(S) == {{}} \cup {{x} : x \in S}
+UpTo(S, n) == {{}} \cup (IF n >= 1 THEN {{x} : x \in S} ELSE {}) \cup (IF n >= 2 THEN {{x, y} : x \in S, y \in S} ELSE {})
 Requestable == {x \in Slot : tree[x] \in {"dir", "file", "big", "at"}}   \* requested symlinks / special files: unspecified
 PathChoices == IF MaxPaths = 0 THEN {<<>>}
                ELSE {<<>>} \cup {<<s>> : s \in Requestable}
@@ -175,7 +176,7 @@ ChooseCfg ==
         lim \in (IF UseLimit THEN BOOLEAN ELSE {FALSE}),
         rl \in (IF "link" \in FileKinds THEN BOOLEAN ELSE {FALSE}),
         pm \in Perms, mi \in InodeLimits, ft \in Fatal, nr \in Roots,
-        fs \in {F \in SUBSET {x \in FaultSites : x.op \in FaultOps} : Cardinality(F) <= MaxFaults},
+        fs \in UpTo({x \in FaultSites : x.op \in FaultOps}, MaxFaults),
         ck \in CancelKinds, cn \in 1..3 :
       LET c == [skipList |-> sl, reSkip |-> rs, globSkip |-> gs, useGit |-> ug, paths |-> ps, ignoreSub |-> isub,
                 limit |-> lim, readLinks |-> rl, perm |-> pm, maxInodes |-> mi, fatal |-> ft, faults |-> fs,
@@ -193,10 +194,11 @@ ChooseCfg ==
               CASE f.op = "statroot" -> ps = <<>>
                 [] f.op \in {"opendir", "readent"} -> (IF f.s = 0 THEN TRUE ELSE IsDir(f.s))
                 [] f.op = "opengi" -> tree[f.s] = "file" /\ ug /\ ~ft
-                [] f.op = "lazystat" -> f.s \in FileSlots /\ lim /\ ~ft
+                [] f.op = "lazystat" -> f.s \in FileSlots /\ lim /\ ~ft /\ \A i \in 1..Len(ps) : ps[i] # f.s
                 [] OTHER -> f.s \in FileSlots
   /\ \E r \in [Ex -> SUBSET FileSlots] :
        /\ req' = r
+       /\ \A f \in cfg'.faults : f.op = "opengi" => \A e \in Ex : f.s \notin r[e]   \* a .gitignore that cannot be opened is not also an extraction target
        /\ LET pairs == {x \in Ex \X Slot : x[2] \in r[x[1]]} IN
           \E o \in [pairs -> Outcomes] : out' = [x \in Ex \X Slot |-> IF x \in pairs THEN o[x] ELSE "ok"]
   /\ phase' = "walk"
@@ -300,7 +302,7 @@ StartWalk ==
                 ELSE IF IsDir(s)
                      THEN \* the parents' .gitignore files (the root's included) apply to a requested directory
                           /\ LET pc == ParentChain(s)
-                                 parents == IF cfg.useGit THEN [i \in 1..Len(pc) |-> [d |-> pc[i], atoms |-> GiAtoms(pc[i])]] ELSE <<>>
+                                 parents == IF cfg.useGit THEN [i \in 1..Len(pc) |-> [d |-> pc[i], atoms |-> IF Faulty("opengi", GiOf(pc[i]), 0) THEN {} ELSE GiAtoms(pc[i])]] ELSE <<>>
                              IN EnterDir(s, <<>>, parents)
                           /\ NoExtract /\ UNCHANGED <<phase, status, cancelled>>
                      ELSE /\ VisitFile(<<>>, s) /\ UNCHANGED <<stack, gis, phase, status>>
@@ -375,7 +377,8 @@ ExactlyTheRequired ==
 InventoryIsUnion ==
   (Done /\ Clean) => \A r \in 1..3, e \in Ex, s \in Slot :
                           pkgs[<<r, e, s>>] = IF out[<<e, s>>] \in {"ok", "errpkg"} THEN calls[<<r, e, s>>] ELSE 0
-NeverExtra == \A r \in 1..3, e \in Ex, s \in Slot : calls[<<r, e, s>>] <= (IF r <= cfg.roots THEN ExpectedCount(e, s) ELSE 0)
+NeverExtra == (\A f \in cfg.faults : f.op # "opengi") =>     \* an unreadable .gitignore contributes no patterns
+              \A r \in 1..3, e \in Ex, s \in Slot : calls[<<r, e, s>>] <= (IF r <= cfg.roots THEN ExpectedCount(e, s) ELSE 0)
 \* C10: the limits are hard bounds
 InodeBound == cfg.maxInodes > 0 => visited <= cfg.maxInodes
 SizeBound == \A r \in 1..3, e \in Ex, s \in Slot : (calls[<<r, e, s>>] > 0 /\ cfg.limit) => SizeOf(tree[s]) <= SizeLimit
